@@ -433,7 +433,7 @@ func c15ToFloat(c *hx.Ctx, r *hx.RNG) {
 	default:
 		v, cls = r.Finite(r.Range(1, 60), int64(r.Range(-50, 50))), "random"
 	}
-	x := hx.MkR(r, v, digitsOf(v)+uint(r.Intn(3)), r.Mode())
+	x := hx.MkR(r, v, xPrec(r, v, uint(r.Intn(3))), r.Mode())
 	name := "Float64"
 	if bits32 {
 		name = "Float32"
@@ -585,7 +585,7 @@ func c15Float(c *hx.Ctx, r *hx.RNG) {
 			v = r.Finite(r.Range(1, 120), int64(r.Range(-40, 40)))
 		}
 	}
-	x := hx.MkR(r, v, digitsOf(v)+uint(r.Intn(3)), r.Mode())
+	x := hx.MkR(r, v, digitsOf(v)+uint(r.Intn(3)), r.Mode()) // (not a huge precision: a destination without one takes ceil(prec*log2(10)) bits)
 	bp := uint(r.Range(1, 300))
 	var z *big.Float
 	shape := r.Intn(3)
